@@ -7,13 +7,21 @@ From Coq Require Import Sorting.Sorted ZifyBool.
 
 Definition lockref (p : cphase) : option (key * lid) :=
   match p with
-  | CLockWait k l _ => Some (k, l)
-  | CInWrapped k l _ _ => Some (k, l)
+  | CLockWait k l _ _ => Some (k, l)
+  | CInWrapped k l _ _ _ => Some (k, l)
+  | _ => None
+  end.
+
+(* the generation of the entries dict the caller works on *)
+Definition dictgen (p : cphase) : option nat :=
+  match p with
+  | CLockWait _ _ _ g => Some g
+  | CInWrapped _ _ _ _ g => Some g
   | _ => None
   end.
 
 Definition is_running (p : cphase) : bool :=
-  match p with CInWrapped _ _ _ _ => true | _ => false end.
+  match p with CInWrapped _ _ _ _ _ => true | _ => false end.
 
 Definition nrun (cf : cfg) (ph : cid -> cphase) : nat :=
   cnt (fun c => is_running (ph c)) (seq 0 (ncall cf)).
@@ -21,8 +29,8 @@ Definition nrun (cf : cfg) (ph : cid -> cphase) : nat :=
 Record LP (cf : cfg) (lk : lid -> Lock.st) (ph : cid -> cphase) (nl : nat) (lkf : lid -> key) : Prop := {
   L_inv : forall l, LockProofs.Inv (lk l);
   L_eng : forall l c, engaged (lk l) c -> exists k, lockref (ph c) = Some (k, l);
-  L_wait : forall c k l t0, ph c = CLockWait k l t0 -> engaged (lk l) c;
-  L_run : forall c k l p b, ph c = CInWrapped k l p b -> In c (Lock.held (lk l));
+  L_wait : forall c k l t0 g, ph c = CLockWait k l t0 g -> engaged (lk l) c;
+  L_run : forall c k l p b g, ph c = CInWrapped k l p b g -> In c (Lock.held (lk l));
   L_ref : forall c k l, lockref (ph c) = Some (k, l) -> l < nl /\ lkf l = k;
   L_ncall : forall c, ph c <> CIdle -> c < ncall cf
 }.
@@ -32,8 +40,8 @@ Proof.
   intros E H. destruct H as [H1 H2 H3 H4 H5 H6]. constructor.
   - exact H1.
   - intros l c. rewrite E. apply H2.
-  - intros c k l t0. rewrite E. apply H3.
-  - intros c k l p b. rewrite E. apply H4.
+  - intros c k l t0 g. rewrite E. apply H3.
+  - intros c k l p b g. rewrite E. apply H4.
   - intros c k l. rewrite E. apply H5.
   - intros c. rewrite E. apply H6.
 Qed.
@@ -46,8 +54,8 @@ Lemma LP_update cf lk ph nl lkf c l L' p' :
                          (In c' (Lock.held L') <-> In c' (Lock.held (lk l)))) ->
   (forall k0 l0, lockref (ph c) = Some (k0, l0) -> l0 = l) ->
   (engaged L' c -> exists k, lockref p' = Some (k, l)) ->
-  (forall k0 l0 t0, p' = CLockWait k0 l0 t0 -> l0 = l /\ engaged L' c) ->
-  (forall k0 l0 p b, p' = CInWrapped k0 l0 p b -> l0 = l /\ In c (Lock.held L')) ->
+  (forall k0 l0 t0 g0, p' = CLockWait k0 l0 t0 g0 -> l0 = l /\ engaged L' c) ->
+  (forall k0 l0 p b g0, p' = CInWrapped k0 l0 p b g0 -> l0 = l /\ In c (Lock.held L')) ->
   (forall k0 l0, lockref p' = Some (k0, l0) -> l0 < nl /\ lkf l0 = k0) ->
   (p' <> CIdle -> c < ncall cf) ->
   LP cf (upd lk l L') (upd ph c p') nl lkf.
@@ -60,13 +68,13 @@ Proof.
     + rewrite upd_other in He by assumption. exfalso.
       destruct (L_eng _ _ _ _ _ H l0 c He) as [k Hk]. apply Nl. eapply Hown; eauto.
     + rewrite upd_other in He by assumption. rewrite upd_other by assumption. apply (L_eng _ _ _ _ _ H), He.
-  - intros c0 k l0 t0 Hp. destruct (Nat.eq_dec c0 c) as [->|Nc].
-    + rewrite upd_same in Hp. destruct (Hw _ _ _ Hp) as [-> He]. now rewrite upd_same.
-    + rewrite upd_other in Hp by assumption. pose proof (L_wait _ _ _ _ _ H _ _ _ _ Hp) as He.
+  - intros c0 k l0 t0 g0 Hp. destruct (Nat.eq_dec c0 c) as [->|Nc].
+    + rewrite upd_same in Hp. destruct (Hw _ _ _ _ Hp) as [-> He]. now rewrite upd_same.
+    + rewrite upd_other in Hp by assumption. pose proof (L_wait _ _ _ _ _ H _ _ _ _ _ Hp) as He.
       destruct (Nat.eq_dec l0 l) as [->|Nl]; [rewrite upd_same; now apply (Hoth c0 Nc)|now rewrite upd_other].
-  - intros c0 k l0 p b Hp. destruct (Nat.eq_dec c0 c) as [->|Nc].
-    + rewrite upd_same in Hp. destruct (Hr _ _ _ _ Hp) as [-> He]. now rewrite upd_same.
-    + rewrite upd_other in Hp by assumption. pose proof (L_run _ _ _ _ _ H _ _ _ _ _ Hp) as He.
+  - intros c0 k l0 p b g0 Hp. destruct (Nat.eq_dec c0 c) as [->|Nc].
+    + rewrite upd_same in Hp. destruct (Hr _ _ _ _ _ Hp) as [-> He]. now rewrite upd_same.
+    + rewrite upd_other in Hp by assumption. pose proof (L_run _ _ _ _ _ H _ _ _ _ _ _ Hp) as He.
       destruct (Nat.eq_dec l0 l) as [->|Nl]; [rewrite upd_same; now apply (Hoth c0 Nc)|now rewrite upd_other].
   - intros c0 k l0 Hp. destruct (Nat.eq_dec c0 c) as [->|Nc].
     + rewrite upd_same in Hp. auto.
@@ -80,8 +88,8 @@ Qed.
 Lemma LP_phase cf lk ph nl lkf c p' :
   LP cf lk ph nl lkf ->
   (forall l, engaged (lk l) c -> exists k, lockref p' = Some (k, l)) ->
-  (forall k0 l0 t0, p' = CLockWait k0 l0 t0 -> engaged (lk l0) c) ->
-  (forall k0 l0 p b, p' = CInWrapped k0 l0 p b -> In c (Lock.held (lk l0))) ->
+  (forall k0 l0 t0 g0, p' = CLockWait k0 l0 t0 g0 -> engaged (lk l0) c) ->
+  (forall k0 l0 p b g0, p' = CInWrapped k0 l0 p b g0 -> In c (Lock.held (lk l0))) ->
   (forall k0 l0, lockref p' = Some (k0, l0) -> l0 < nl /\ lkf l0 = k0) ->
   (p' <> CIdle -> c < ncall cf) ->
   LP cf lk (upd ph c p') nl lkf.
@@ -90,10 +98,10 @@ Proof.
   - apply (L_inv _ _ _ _ _ H).
   - intros l c0 He. destruct (Nat.eq_dec c0 c) as [->|Nc]; [rewrite upd_same; auto|].
     rewrite upd_other by assumption. apply (L_eng _ _ _ _ _ H), He.
-  - intros c0 k l t0 Hp. destruct (Nat.eq_dec c0 c) as [->|Nc]; [rewrite upd_same in Hp; eauto|].
-    rewrite upd_other in Hp by assumption. apply (L_wait _ _ _ _ _ H _ _ _ _ Hp).
-  - intros c0 k l p b Hp. destruct (Nat.eq_dec c0 c) as [->|Nc]; [rewrite upd_same in Hp; eauto|].
-    rewrite upd_other in Hp by assumption. apply (L_run _ _ _ _ _ H _ _ _ _ _ Hp).
+  - intros c0 k l t0 g0 Hp. destruct (Nat.eq_dec c0 c) as [->|Nc]; [rewrite upd_same in Hp; eauto|].
+    rewrite upd_other in Hp by assumption. apply (L_wait _ _ _ _ _ H _ _ _ _ _ Hp).
+  - intros c0 k l p b g0 Hp. destruct (Nat.eq_dec c0 c) as [->|Nc]; [rewrite upd_same in Hp; eauto|].
+    rewrite upd_other in Hp by assumption. apply (L_run _ _ _ _ _ H _ _ _ _ _ _ Hp).
   - intros c0 k l Hp. destruct (Nat.eq_dec c0 c) as [->|Nc]; [rewrite upd_same in Hp; auto|].
     rewrite upd_other in Hp by assumption. apply (L_ref _ _ _ _ _ H c0), Hp.
   - intros c0 Hp. destruct (Nat.eq_dec c0 c) as [->|Nc]; [rewrite upd_same in Hp; auto|].
@@ -113,9 +121,9 @@ Proof.
   - intros l c He. destruct (Nat.eq_dec l nl) as [->|N].
     + rewrite upd_same in He. exfalso. eapply engaged_init; eauto.
     + rewrite upd_other in He by assumption. apply (L_eng _ _ _ _ _ H), He.
-  - intros c k0 l t0 Hp. rewrite upd_other; [apply (L_wait _ _ _ _ _ H _ _ _ _ Hp)|].
+  - intros c k0 l t0 g0 Hp. rewrite upd_other; [apply (L_wait _ _ _ _ _ H _ _ _ _ _ Hp)|].
     apply (Hlt c k0). now rewrite Hp.
-  - intros c k0 l p b Hp. rewrite upd_other; [apply (L_run _ _ _ _ _ H _ _ _ _ _ Hp)|].
+  - intros c k0 l p b g0 Hp. rewrite upd_other; [apply (L_run _ _ _ _ _ H _ _ _ _ _ _ Hp)|].
     apply (Hlt c k0). now rewrite Hp.
   - intros c k0 l Hp. destruct (L_ref _ _ _ _ _ H c k0 l Hp) as [H1 H2]. split; [lia|].
     rewrite upd_other; [exact H2|lia].
